@@ -546,8 +546,10 @@ compute_image_info (pixman_image_t *image)
 void
 _pixman_image_validate (pixman_image_t *image)
 {
+    VERIF_POINT (PIXMAN_VERIF_SITE_VALIDATE_TEST, image, PIXMAN_VERIF_READ, NULL);
     if (image->common.dirty)
     {
+	VERIF_POINT (PIXMAN_VERIF_SITE_VALIDATE_RECOMPUTE, image, PIXMAN_VERIF_WRITE, NULL);
 	compute_image_info (image);
 
 	/* It is important that property_changed is
@@ -558,6 +560,7 @@ _pixman_image_validate (pixman_image_t *image)
 	if (image->common.property_changed)
 	    image->common.property_changed (image);
 
+	VERIF_POINT (PIXMAN_VERIF_SITE_VALIDATE_CLEAN, image, PIXMAN_VERIF_WRITE, NULL);
 	image->common.dirty = FALSE;
     }
 
